@@ -313,8 +313,9 @@ class LoopMixin:
                     continue
                 work.extend(st2.dctx[0].alts)
                 delta = [c for i, c in enumerate(st2.pc) if i >= n_pc0 and i not in st2.assumed]
+                facts = [c for i, c in enumerate(st2.pc) if i >= n_pc0 and i in st2.assumed and not z3.is_quantifier(c)]
                 results.append(dict(outcome=outcome, payload=payload, cond=z3.And(*delta) if delta else TRUE, st=st2, env=env2,
-                                    effects=st2.effects[n_eff0:]))
+                                    effects=st2.effects[n_eff0:], facts=facts))
                 if len(results) > 400:
                     raise Unsupported("loop body has more than 400 paths")
         finally:
@@ -323,10 +324,10 @@ class LoopMixin:
         normals = [r for r in results if r["outcome"] == "normal"]
 
         # generalise fresh symbols created inside the body to functions of g (Skolem functions)
-        all_terms = [r["cond"] for r in results]
+        all_terms = [r["cond"] for r in results] + [f for r in results for f in r["facts"]]
         newc = {}
         for n, t in self._new_consts(all_terms, known).items():
-            if is_new(n):
+            if is_new(n) and not n.startswith("g!"):  # (g!k are bound variables of inner iterations, not Skolem constants)
                 newc[n] = t
         self._skolem = [(t, z3.Select(z3.Const(fresh_name("sk_" + n.split("!")[0]), z3.ArraySort(z3.IntSort(), t.sort())), g))
                         for n, t in newc.items()]
@@ -475,6 +476,12 @@ class LoopMixin:
         g = seg.g
         st = self.st
         in_range = z3.And(g >= 0, g < hi2, seg.cond)
+        # facts established inside the body (model postconditions, first-match witnesses) hold for every iteration that
+        # takes the path; keep them for the generic iteration g (a free constant of the outer state)
+        for r in normals:
+            if r["facts"]:
+                outer_rng = [z3.And(fg >= 0, fg < fhi, fc) for (_l, _p, fhi, fg, fc) in seg.outer]
+                st.assume(z3.Implies(z3.And(in_range, gen(r["cond"]), *outer_rng), z3.And(*[gen(f) for f in r["facts"]])))
         # ---- side conditions and collection
         appends: dict[int, list] = {}
         field_writes: dict[tuple, list] = {}  # (lid, key) -> [(cond, new array)]
